@@ -2,7 +2,10 @@
 From Emitter Require Import Lib.Base Model.MsgCodec Model.Store.
 
 Inductive q := Q (ssid : list N) (from until : Z) (start : bytes) (limit : N) (res : list msg).
-Inductive case := CStore (disk : bool) (now : Z) (retain : N) (stored : list msg) (queries : list q).
+Inductive case :=
+| CStore (disk : bool) (now : Z) (retain : N) (stored : list msg) (queries : list q)
+(* page 1 at time now1, continuation pages at time now2 (some messages have expired in between) *)
+| CLapse (now1 now2 : Z) (retain : N) (stored : list msg) (queries1 queries2 : list q).
 
 Definition msg_eqb (a b : msg) : bool :=
   bytes_eqb (m_id a) (m_id b) && bytes_eqb (m_chan a) (m_chan b) && bytes_eqb (m_payload a) (m_payload b)
@@ -56,23 +59,30 @@ Definition own_start (s : store) (now : Z) (ssid : list N) (from until : Z) (sta
          existsb (fun e => bytes_eqb (m_id (e_msg e)) start) (filter (wanted now ssid t0 t1) s)
   end.
 
-Definition check_q (s : store) (now : Z) (x : q) : N :=
+(* [now0]: the time at which the continuation id was (possibly) returned *)
+Definition check_q_at (s : store) (now0 now : Z) (x : q) : N :=
   match x with
   | Q ssid from until start limit res =>
     let m := query s now ssid from until start limit in
     bit (same_set m res) 1
     (* oracle: exactly the wanted messages, ordered by non-decreasing time; never another contract,
        never an expired one, never an id at or before the continuation id *)
-    |+| (if own_start s now ssid from until start
+    |+| (if own_start s now0 ssid from until start
          then bit (same_set (spec_query s now ssid from until start limit) res) 2 else 0)
     |+| bit (nondecreasing res) 2
     |+| bit (forallb (fun r => match start with [] => true | _ => lex_ltb start (m_id r) end) res) 2
     |+| bit (forallb (fun r => match ssid, id_words (m_id r) with c :: _, c' :: _ => c =? c' | _, _ => false end) res) 2
   end.
 
+Definition check_q (s : store) (now : Z) (x : q) : N := check_q_at s now now x.
+
 Definition check (c : case) : N :=
   match c with
   | CStore disk now retain stored queries =>
     let s := fold_left (store_msg retain) stored [] in
     fold_left (fun acc x => acc |+| check_q s now x) queries 0
+  | CLapse now1 now2 retain stored queries1 queries2 =>
+    let s := fold_left (store_msg retain) stored [] in
+    fold_left (fun acc x => acc |+| check_q_at s now1 now2 x) queries2
+              (fold_left (fun acc x => acc |+| check_q s now1 x) queries1 0)
   end.
